@@ -988,6 +988,10 @@ class Translator:
         self.uid += 1
         inst = FnInstance(self, fn, self.uid, self.cur)
         self.emit(f"/* >>> {key} (inst {inst.uid}) */")
+        if dest is not None and not dest.idxs and dest.node.ndims == 0 and re.fullmatch(r".*\b[A-Z]\b.*", fn.ret_ty or "") and \
+                re.search(r"(^|[<, (&])[A-Z]($|[>, )])", fn.ret_ty or ""):
+            # generic return type (e.g. Result<T, E> with T a type parameter): the return place IS the caller's destination
+            inst.locals[0] = dest.node
         if len(args) != fn.nargs:
             # closures called through Fn* traits receive their arguments as one tuple
             raise TranslateError(f"arity mismatch calling {key}: {len(args)} args for {fn.nargs} params")
